@@ -198,6 +198,51 @@ def _check_shape(args):
     return res
 
 
+def _check_text_arguments():
+    """text arguments that differ ONLY in non-ASCII letters (or have `?` where the other has such a letter), at top level and nested, on every
+    kind of cache: each binding is executed once and gets its own entry; `only_cache` finds nothing for a binding never called"""
+    import numpy as np
+    from taskchain.cache import InMemoryCache, JsonCache, NumpyArrayCache, cached
+
+    res = Result()
+    texts = ['\u0161\u00edpek', '\u010d\u00edpek', '?\u00edpek', 'sipek', {'okres': 'T\u0159eb\u00ed\u010d'}, {'okres': 'T\u0159eb\u00ed\u0161'}, {'okres': 'T?eb??'}, ['\u00e9'], ['\u00e8'], '\u65e5\u672c', '\u4e2d\u56fd']
+    for cache_kind in ('memory', 'json', 'numpy'):
+        calls = []
+
+        class K:
+            def __init__(self, cache):
+                self.cache = cache
+
+            @cached()
+            def lookup(self, text, exact=True):
+                calls.append(text)
+                n = len(calls)
+                return np.array([n]) if cache_kind == 'numpy' else {'n': n}
+
+        cache = InMemoryCache() if cache_kind == 'memory' else (JsonCache if cache_kind == 'json' else NumpyArrayCache)(scratch.fresh('c16t'))
+        o = K(cache)
+        case = {'kind': 'text-arguments'}
+        try:
+            for i, t in enumerate(texts):
+                res.add('evaluations', 3)
+                try:
+                    from taskchain.cache import NO_VALUE
+                    found = o.lookup(t, only_cache=True) is not NO_VALUE
+                except Exception:  # noqa  (an entry that cannot be read is no value either)
+                    found = False
+                first = o.lookup(t)
+                again = o.lookup(text=t, exact=True)
+                n1 = int(first[0]) if cache_kind == 'numpy' else first['n']
+                n2 = int(again[0]) if cache_kind == 'numpy' else again['n']
+                if found or n1 != i + 1 or n2 != i + 1 or len(calls) != i + 1:
+                    res.violations.append(Violation('cached: text arguments that differ only in non-ASCII characters share an entry',
+                                                    f'{cache_kind} cache, lookup({t!r}) after {texts[:i]!r}: found before the first call: {found}; returned entry {n1}/{n2}, expected {i + 1}; executions {len(calls)}', case))
+                    break
+        except Exception as e:  # noqa
+            res.violations.append(Violation('cached: call with a text argument raised', f'{cache_kind} cache: {type(e).__name__}: {e}', case))
+    return res
+
+
 def _check_methods_versions(tier):
     """with the object's own cache, different methods and versions never share entries"""
     from taskchain.cache import InMemoryCache, JsonCache, cached
@@ -423,6 +468,7 @@ def run(tier, seed):
         res.merge(r)
     res.coverage['shape_jobs'] = len(jobs)
     res.merge(_check_methods_versions(tier))
+    res.merge(_check_text_arguments())
     depth = 3 if tier == 'quick' else 4
     for r in pmap(_check_histories, [('memory', False, depth), ('memory', True, depth), ('json', False, min(depth, 3)), ('json', True, min(depth, 3)),
                                            ('json', True, 4, 1), ('json', False, 4, 1), ('memory', True, 5, 1)]):   # the last three: one binding, longer (create, read, force, read)
@@ -445,6 +491,8 @@ def replay(case):
     if case.get('kind') == 'hist':
         r = _check_histories((case['cache'], case['explicit'], len(case['hist']), 2))
         return [v for v in r.violations if v.case['hist'] == case['hist']]
+    if case.get('kind') == 'text-arguments':
+        return _check_text_arguments().violations
     if case.get('kind') in ('methods', 'versions'):
         return _check_methods_versions('quick').violations
     r = _check_shape((tuple(case['shape']), 'thorough', case['cache'], tuple(case['ignore']), case['style']))
